@@ -48,15 +48,21 @@ def _run_one(mod, scn):
         faulthandler.cancel_dump_traceback_later()
 
 
+_SEQ = [0]
+
+
 def work_chunk(prop_id, seed, tier, indices, want_scn):
     mod = load(prop_id)
     out = []
     for idx in indices:
+        _SEQ[0] += 1
         scn = mod.gen(seed, idx, tier)
         t0 = time.perf_counter()
         r = _run_one(mod, scn)
         r["idx"] = idx
         r["wall"] = time.perf_counter() - t0
+        r["pid"] = os.getpid()
+        r["seq"] = _SEQ[0]
         if idx in want_scn or r["violations"]:
             r["scenario"] = scn
         out.append(r)
@@ -287,6 +293,20 @@ def run_batch(prop_id, tier, seed, runs=None, workers=None, max_wall=None, selft
             cmd = [sys.executable, os.path.join(VERIF, "run_check.py"), prop_id, "--replay", path]
             p = subprocess.run(cmd, env=fresh_env("0"), capture_output=True, text=True, timeout=900)
             rep["replay_reproduced"] = p.returncode == 1 and f"VIOLATION property={prop_id}" in p.stdout
+            if not rep["replay_reproduced"] and "pid" in r:
+                # the violation may depend on what the same worker process executed before (hidden
+                # process-global state in the library): replay the worker's history up to this run
+                hist = sorted([x for x in results if x.get("pid") == r["pid"] and x.get("seq", 0) < r["seq"]], key=lambda x: x["seq"])
+                rep["history"] = [mod.gen(seed, x["idx"], tier) for x in hist[-60:]] + [scn]
+                rep["history_indices"] = [x["idx"] for x in hist[-60:]] + [r["idx"]]
+                rep["scenario"] = scn
+                with open(path, "w") as fh:
+                    fh.write(json.dumps(rep, indent=1, sort_keys=True, default=str))
+                p = subprocess.run(cmd, env=fresh_env("0"), capture_output=True, text=True, timeout=3600)
+                rep["replay_reproduced"] = p.returncode == 1 and f"VIOLATION property={prop_id}" in p.stdout
+                if rep["replay_reproduced"]:
+                    rep["note"] = f"reproduces only after the {len(rep['history']) - 1} scenarios the same worker process executed before: the library keeps state across runs"
+                    rep["message"] += " [depends on earlier runs in the same process]"
             if not rep["replay_reproduced"] and getattr(mod, "NONREPRODUCIBLE_IS_VIOLATION", False):
                 # for the reproducibility property itself a violation that does not replay IS the finding
                 rep["note"] = "the replay did not reproduce: the executions are not a function of their inputs"
@@ -401,7 +421,9 @@ def replay(prop_id, path):
     with open(path) as f:
         rep = json.load(f)
     _worker_init()
-    res = _run_one(mod, rep["scenario"])
+    for earlier in rep.get("history", [])[:-1]:
+        _run_one(mod, earlier)
+    res = _run_one(mod, rep["history"][-1] if rep.get("history") else rep["scenario"])
     findings = load_findings()
     hit = [v for v in res["violations"] if v["rule"] == rep["rule"]]
     if hit:
